@@ -96,12 +96,17 @@ func runCheck(args []string) {
 	tier := fs.String("tier", "quick", "quick|thorough")
 	updateBaseline := fs.Bool("update-baseline", false, "rewrite the baseline entry of this property (development only)")
 	timeoutFlag := fs.Int("t", 0, "solver timeout override")
+	outDir := fs.String("out", "", "write work files, replays and evidence under this directory instead of /verif (development only)")
 	fs.Parse(args)
 	if *prop == "" {
 		fmt.Fprintln(os.Stderr, "check: -prop required")
 		os.Exit(2)
 	}
 	t0 := time.Now()
+	cfgDir := verifDir
+	if *outDir != "" {
+		verifDir = *outDir
+	}
 	quickTier = *tier == "quick" && !*updateBaseline
 	seed := 0
 	fmt.Sscan(os.Getenv("VERIF_SEED"), &seed)
@@ -120,9 +125,9 @@ func runCheck(args []string) {
 		loadErr = err.Error()
 	}
 	var base BaselineFile
-	loadJSON(filepath.Join(verifDir, "obligations.baseline.json"), &base)
+	loadJSON(filepath.Join(cfgDir, "obligations.baseline.json"), &base)
 	var undec []Undecided
-	loadJSON(filepath.Join(verifDir, "undecided.json"), &undec)
+	loadJSON(filepath.Join(cfgDir, "undecided.json"), &undec)
 	isUndecided := func(g string) (string, bool) {
 		for _, u := range undec {
 			if u.Group == g || (strings.HasSuffix(u.Group, "*") && strings.HasPrefix(g, strings.TrimSuffix(u.Group, "*"))) {
@@ -159,7 +164,7 @@ func runCheck(args []string) {
 		finish(*prop, *tier, seed, t0, nil, nil, violations, nil, nil, nil, timeout)
 		return
 	}
-	loadJSON(filepath.Join(verifDir, "known_findings.json"), &P.findings)
+	loadJSON(filepath.Join(cfgDir, "known_findings.json"), &P.findings)
 
 	// select functions
 	var fns []*ssa.Function
@@ -191,8 +196,6 @@ func runCheck(args []string) {
 			res := P.verifyFunc(j.fn, j.c, j.cfg, j.has, j.extra...)
 			results = append(results, res)
 			for _, o := range res.Obls {
-				o.SMT = EmitSMT(o.Hyps, o.Goal, "", o.Cover, o.Watch)
-				o.Hyps = nil
 				if o.Group == "" {
 					o.Group = o.Name
 				}
@@ -208,7 +211,19 @@ func runCheck(args []string) {
 			}
 		}
 		pos := P.prog.Fset.Position(fn.Pos())
-		funcsUnder = append(funcsUnder, map[string]interface{}{"function": shortFuncName(fn), "file": shortFile(pos.Filename), "contract_hash": c.Hash(), "obligations": nobl, "generation_error": genErr})
+		cfgTxt := "single run, seat count symbolic within the contract's precondition"
+		if c.Config != nil {
+			lo, hi := c.Config.Lo, c.Config.Hi
+			if quickTier {
+				lo, hi = c.Config.QLo, c.Config.QHi
+			}
+			cfgTxt = fmt.Sprintf("%s in %d..%d, one complete run per value (contract range %d..%d)", c.Config.Var, lo, hi, c.Config.Lo, c.Config.Hi)
+		}
+		fu := map[string]interface{}{"function": shortFuncName(fn), "file": shortFile(pos.Filename), "contract_hash": c.Hash(), "obligations": nobl, "generation_error": genErr, "configurations": cfgTxt}
+		if c.Partial != "" {
+			fu["partial"] = c.Partial
+		}
+		funcsUnder = append(funcsUnder, fu)
 	}
 	for _, e := range P.contractErrs {
 		// a contract whose function no longer exists: the proof that carried the property is gone
@@ -321,6 +336,9 @@ func runCheck(args []string) {
 		}
 		if len(samples) < 6 && g.OK && len(g.Obls) > 0 {
 			o := g.Obls[0]
+			if o.funs != nil {
+				os.WriteFile(oblFile(workDir, o), []byte(EmitSMTWith(o.funs, o.Hyps, o.Goal, o.Cover, o.Watch)), 0o644)
+			}
 			samples = append(samples, map[string]interface{}{"obligation": o.Name, "kind": o.Kind, "verdict": o.Status, "solver": o.Solver, "seconds": o.Time, "note": o.Note, "smt_file": oblFile(workDir, o)})
 		}
 	}
@@ -459,7 +477,7 @@ func finish(prop, tier string, seed int, t0 time.Time, cov map[string]interface{
 	tb := append([]string{"govc itself (VC generator, memory model, contract language): soundness argued in DESIGN.md, exercised by the must-fail corpus", "SMT solvers z3 5.1.0, cvc5 1.0, z3 4.8.12"}, trusted...)
 	cov["trusted_base"] = tb
 	cov["known_findings"] = known
-	cov["configuration_split"] = "MaxSeat in 2..10 where the contract has a config clause (complete for the property's stated range; nothing is claimed for larger tables)"
+	cov["configuration_split"] = "functions that compute with the seat count are verified once per seat count; the range run in this tier is listed per function under functions_under_contract[].configurations, and nothing is claimed by this run for seat counts outside it"
 	if _, ok := cov["samples"]; !ok {
 		cov["samples"] = []string{"none"}
 	}
@@ -486,7 +504,3 @@ func finish(prop, tier string, seed int, t0 time.Time, cov map[string]interface{
 	os.Exit(0)
 }
 
-// tryReplay: replays a counter-model against the real code when a replay driver exists for the function.
-func (P *Prog) tryReplay(o *Obligation, dir string) (string, bool, string) {
-	return "", false, "no replay driver for this function (the model is attached above)"
-}
